@@ -749,3 +749,34 @@ def r_branch_agree(cx):
                       "one hemisphere gets another value than the other formula would give" % (
                           name.rsplit("::", 1)[-1], a[0], a[1], b[0], b[1]), cx.where(s.get("span")))
     cx.count("R-BRANCH-AGREE", "branch_pairs", n)
+
+
+@rule("R-CURVATURE-RADIANS", ["C14", "C06"])
+def r_curvature_radians(cx):
+    """The `curvature` operator reads latitudes in degrees and hands them to the ellipsoid's radius-of-curvature methods,
+    which take radians. Every latitude argument of those methods in curvature::fwd is the result of a degree-to-radian
+    conversion of the input (to_radians / xy_to_radians) - all call sites alike: a single call that gets the raw degree
+    value yields a plausible looking radius that is kilometres off."""
+    name = "inner_op::curvature::fwd"
+    if not cx.f.has_fn(name):
+        cx.ob("R-CURVATURE-RADIANS", "anchor", False, "anchor-missing: %s" % name)
+        return
+    f = cx.f.fn(name)
+    n = 0
+    for bb, t in f.calls():
+        c = (t.get("callee") or f.callee(t) or "")
+        if not c.endswith("_radius_of_curvature"):
+            continue
+        a = f.arg_terms(bb)
+        if len(a) < 2:
+            continue
+        n += 1
+        hit = []
+        mir.walk(a[1], lambda y: (hit.append(1) if y[0] == "call" and isinstance(y[1], str) and
+                                  y[1].rsplit("::", 1)[-1] in ("to_radians", "xy_to_radians") else None) or True)
+        cx.ob("R-CURVATURE-RADIANS", "fwd/call%d" % (n - 1), bool(hit),
+              "the latitude handed to %s is converted to radians" % c.rsplit("::", 1)[-1] if hit else
+              "curvature::fwd hands a latitude to %s that was not converted from degrees to radians (the other calls are): "
+              "the combined radius is computed from radii at two different latitudes" % c.rsplit("::", 1)[-1],
+              cx.where(t["span"]))
+    cx.count("R-CURVATURE-RADIANS", "radius_calls", n)
